@@ -8,7 +8,7 @@ import vlib
 C04_OPS = ["ctor_default", "ctor_ext", "ctor_fill", "ctor_iota", "ctor_view", "decay", "ctor_range", "ctor_copy", "ctor_move",
            "ctor_ref", "ctor_rref", "ctor_other", "ctor_other_x", "ctor_il", "assign_copy", "assign_move", "assign_other", "assign_il", "swap",
            "assign_view", "self_assign", "write", "write_last", "destroy", "ref_assign", "ref_assign_move", "assign_rview", "swap_views"]
-C06_OPS = ["reextent", "reextent_fill", "reextent_move", "clear", "assign_empty", "reshape", "assign_range"]
+C06_OPS = ["reextent", "reextent_fill", "reextent_move", "clear", "assign_empty", "reshape", "assign_range", "assign_range_ptr"]
 MOVES = {"ctor_move", "assign_move", "ctor_move_al"}
 
 
